@@ -76,7 +76,7 @@ CLAUSES = {
         "clock): Spec.schedViolations demands it of every armed deadline, tie only",
     "a coroutine callback is never started while its previous invocation is still running": "no_overlap, no_overlap_from_init, step_inv1 "
         "(EVERY program: start()/stop() in any state, also while an invocation is pending and in the handle/body window - no "
-        "admissibility hypothesis since fix 1d49c08); inv_run, step_inv: additionally at most one armed timer, none while an "
+        "admissibility hypothesis since fix 3ee58ef); inv_run, step_inv: additionally at most one armed timer, none while an "
         "invocation is in flight (hypothesis WF: no start() in the handle/body window)",
     "stop prevents further runs": "stop_prevents_runs, stop_clears, stop_disarms, stop_in_iteration_prevents_run (a stop() "
         "made by a foreign callback in the loop iteration of the periodic timer, before the handle or between the handle "
